@@ -827,6 +827,62 @@ def pick_n(ctx):
     return ctx.int('N', p.get('nmin', 512), p.get('nmax', 40960))
 
 
+def drive_wrapper(ctx, fi, S, N, rsize, allowed, max_reads):
+    """read the stream through an InspectWrapper in reads of `rsize`,
+    sampling `format` after every read; close; -> (format, formats,
+    samples, escaped exception)"""
+    pos = [0]
+
+    class Src:
+        def read(self, size):
+            a = pos[0]
+            b = h.vmin(a + size, N)
+            if ctx.truth(b > a):
+                pos[0] = b
+                return S.slice(a, b)
+            return S.slice(a, a)
+
+        def close(self):
+            pass
+
+    samples = []
+    exc = None
+    try:
+        w = fi.InspectWrapper(Src(), allowed_formats=allowed)
+        steps = 0
+        while True:
+            ch = w.read(rsize)
+            steps += 1
+            if not ctx.truth(h.length(ch) > 0):
+                break
+            try:
+                f = w.format
+                samples.append(None if f is None else str(f))
+            except fi.ImageFormatError:
+                samples.append('IFE')
+            if steps > max_reads:
+                ctx.assume(False)
+        w.close()
+        try:
+            fs = w.formats
+            final_formats = sorted(str(x) for x in fs) if fs is not None \
+                else None
+        except fi.ImageFormatError:
+            final_formats = 'IFE'
+        try:
+            f = w.format
+            final = None if f is None else str(f)
+        except fi.ImageFormatError:
+            final = 'IFE'
+    except fi.ImageFormatError:
+        exc = 'ImageFormatError-escaped-read'
+        final = final_formats = None
+    except Exception as e:
+        exc = type(e).__name__
+        final = final_formats = None
+    return final, final_formats, samples, exc
+
+
 def scen_detect(ctx, M):
     """InspectWrapper / detect_file_format with all ten real inspectors
     over a polyglot family: one of the offset-0 magics, plus symbolic VDI
@@ -885,55 +941,15 @@ def scen_detect(ctx, M):
         # at most `max_sym_reads` non-empty reads (each read position forks
         # against every region boundary)
         ctx.assume(rsize * p.get('max_sym_reads', 4) >= N)
-    pos = [0]
-
-    class Src:
-        def read(self, size):
-            a = pos[0]
-            b = h.vmin(a + size, N)
-            if ctx.truth(b > a):
-                pos[0] = b
-                return S.slice(a, b)
-            return S.slice(a, a)
-
-        def close(self):
-            pass
-
-    samples = []
-    exc = None
-    try:
-        w = fi.InspectWrapper(Src(), allowed_formats=allowed)
-        steps = 0
-        while True:
-            ch = w.read(rsize)
-            steps += 1
-            if not ctx.truth(h.length(ch) > 0):
-                break
-            try:
-                f = w.format
-                samples.append(None if f is None else str(f))
-            except fi.ImageFormatError:
-                samples.append('IFE')
-            if steps > p.get('max_reads', 40):
-                ctx.assume(False)
-        w.close()
-        try:
-            fs = w.formats
-            final_formats = sorted(str(x) for x in fs) if fs is not None \
-                else None
-        except fi.ImageFormatError:
-            final_formats = 'IFE'
-        try:
-            f = w.format
-            final = None if f is None else str(f)
-        except fi.ImageFormatError:
-            final = 'IFE'
-    except fi.ImageFormatError:
-        exc = 'ImageFormatError-escaped-read'
-        final = final_formats = None
-    except Exception as e:
-        exc = type(e).__name__
-        final = final_formats = None
+    final, final_formats, samples, exc = drive_wrapper(
+        ctx, fi, S, N, rsize, allowed, p.get('max_reads', 40))
+    if p.get('relational'):
+        # C01 at wrapper level: the same content read in one piece must
+        # lead to the same decision
+        f2, ff2, _s2, exc2 = drive_wrapper(ctx, fi, S, N, N + 1, allowed, 3)
+        ctx.check('C01-wrapper-rel-exception', exc == exc2)
+        ctx.check('C01-wrapper-rel-format', final == f2)
+        ctx.check('C01-wrapper-rel-formats', final_formats == ff2)
     ctx.check('C03-total', exc is None)
     if exc is not None:
         return (exc,)
